@@ -81,6 +81,25 @@ def base_plan(rkspec, seed: int, mode: str, fl_p: str, fl_u: str, script=None) -
             "ops": ops, "entropy_script": script or [], "mode": mode}
 
 
+def thread_plan(rkspec, seed: int, mode: str, k: int) -> dict:
+    """Two or three principals protect at the same time from caller threads of one process (different SIDs, hence different group
+    keys), then the blobs are unprotected, again from threads; simworld.threads decides every pre-emption."""
+    from checks import threadpure
+
+    # (the same SID twice: two threads work with the same group key right after the process dealt with another one)
+    sids = ([SID, SID, SID2], [SID, SID2], [SID, SID2, offline.sid_shape(3, k)], [SID, SID])[k % 4]
+    ops = [{"op": "identity", "sids": [] if mode == "pub" else list(sids) + [SID2]},
+           {"op": "protect", "fl": "sync", "sid": SID2, "rk": None, "net": "online", "data": 5, "cache": "fresh"}]  # an earlier derivation in this process
+    for sid in sids:
+        ops.append({"op": "protect", "fl": "thread", "group": 1, "sid": sid, "rk": None, "net": "online", "data": 19, "cache": "fresh"})
+    ops.append({"op": "identity", "sids": list(sids) + [SID2]})
+    ops.append({"op": "unprotect", "fl": "sync", "net": "online", "blob": {"from_op": 1}, "cache": "fresh"})
+    for j in range(len(sids)):
+        ops.append({"op": "unprotect", "fl": "thread", "group": 2, "net": "online", "blob": {"from_op": 2 + j}, "cache": "fresh"})
+    return {"seed": seed, "clock_ft": FT, "root_keys": [rkspec], "caller_sids": [], "ctx": {"kind": "stub", "legs": 2, "sig": 16},
+            "ops": ops, "entropy_script": [], "mode": mode, "threads": threadpure.policy_for(k), "family": "threads"}
+
+
 def lz(b: bytes) -> int:
     return len(b) - len(b.lstrip(b"\x00"))
 
@@ -90,8 +109,13 @@ def judge(plan, tr: P.Trace):
     rk = tr.root_keys[0]
     prots = [ot for ot in tr.ops if ot.op["op"] == "protect"]
     unps = [ot for ot in tr.ops if ot.op["op"] == "unprotect"]
-    if len(prots) > 1:
+    if len(prots) > 1 and plan.get("family") != "threads":
         probes["two_sids_same_position"] = 1
+    if plan.get("family") == "threads":
+        probes["thread_plans"] = 1
+        probes["thread_overlap"] = tr.world.stats.get("toverlap", 0)
+    if any(e["hex"][:6] in (b"DHP".hex(), b"ECK".hex()) for e in plan["entropy_script"]):
+        probes["nonce_with_structure_magic"] = 1
     for prot, unp in zip(prots, unps):
         v = _judge_pair(plan, tr, rk, prot, unp, probes)
         if v:
@@ -164,12 +188,14 @@ class C03(common.Check):
             "with the ephemeral private key / nonce a scripted entropy draw; reference unwraps the CEK with an independently computed KEK; "
             "library unprotects as the authorised principal]. 4 hashes x {nonce, DH RFC 5114, P256, P384} with a committed table of draws that "
             "give a leading-zero ephemeral public value / X / Y coordinate / shared secret; small DH groups (2..8-byte primes, private key "
-            "lengths that are not multiples of 8) where leading zeros are frequent; scripted all-zero / leading-zero nonces; PRNG draws. "
+            "lengths that are not multiples of 8) where leading zeros are frequent; scripted all-zero / leading-zero nonces and nonces that begin with the magic of a public-key structure; PRNG draws; "
+            "plans in which 2..3 principals protect (and later unprotect) at the same time from caller threads of one process, pre-empted at "
+            "PRNG-chosen line events inside dpapi_ng. "
             "Non-trivial = a leading-zero condition held (measured with the reference arithmetic); distinct = distinct plan.")
     components = {"client": "real (new_kek / get_kek / compute_kek / compute_public_key through the public API)", "entropy": "simulated, scripted draws",
                   "DC": "model (RefDC, public-key and seed replies)", "independent implementation": "ref.gkdi + ref.ec (own P-256/P-384 arithmetic, pow() DH, hashlib KDFs)"}
     assumptions = ["reference calibrated on the 16 Windows blobs (gate before every run)", "hash x algorithm sweep is workload parameterisation"]
-    required_fired = ("two_sids_same_position", "key_length_wider_than_modulus", "lz_shared_secret", "lz_public_value", "lz_coord_x", "lz_coord_y", "lz_nonce", "agree_DH_pub", "agree_ECDH_P256_pub", "agree_ECDH_P384_pub", "agree_DH_nonce")
+    required_fired = ("two_sids_same_position", "key_length_wider_than_modulus", "lz_shared_secret", "lz_public_value", "lz_coord_x", "lz_coord_y", "lz_nonce", "agree_DH_pub", "agree_ECDH_P256_pub", "agree_ECDH_P384_pub", "agree_DH_nonce", "thread_plans", "thread_overlap", "nonce_with_structure_magic")
 
     def cases(self, tier, seed):
         rng = prng.stream(seed, "C03")
@@ -181,6 +207,15 @@ class C03(common.Check):
             for nonce in (b"\x00" * 32, b"\x00" + b"\x11" * 31, b"\x00\x00" + b"\x7f" * 30, b"\xff" * 32, b"\x00" * 31 + b"\x01"):
                 out.append(base_plan([51, h, "DH"], len(out), "nonce", rng.choice(("sync", "async")), rng.choice(("sync", "async")),
                                      [{"source": "urandom", "n": 32, "hex": nonce.hex()}]))
+            # nonces that happen to begin like a public-key structure (the flag, not the content, says what key_info holds)
+            for magic in (b"DHPB", b"ECK1", b"ECK3", b"ECK5", b"ECK\x00", b"KDSK"):
+                for tail in (b"\x00\x01\x00\x00" + b"\x22" * 24, b"\x20\x00\x00\x00" + b"\x33" * 24, bytes(range(28))):
+                    out.append(base_plan([51, h, "DH"], len(out), "nonce", rng.choice(("sync", "async")), rng.choice(("sync", "async")),
+                                         [{"source": "urandom", "n": 32, "hex": (magic + tail).hex()}]))
+        for k in range(160 if tier == "quick" else 8000):
+            kl = (2, 3, 4, 8)[k % 4]
+            spec = [54 + k % 3, offline.HASHES[k % 4], "DH", {"dh": small_group(kl, k % 40), "priv_len": kl * 8}] if k % 5 else [55, offline.HASHES[k % 4], offline.SECRETS[k % 3]]
+            out.append(thread_plan(spec, rng.getrandbits(31), "pub" if k % 4 else "nonce", k))
         n_small = 1500 if tier == "quick" else 60000
         for i in range(n_small):
             kl = rng.choice((2, 2, 3, 3, 4, 5, 8))
@@ -205,6 +240,7 @@ class C03(common.Check):
                 "probes": probes, "vtime_ns": tr.world.stats.get("vtime_ns", 0)}
 
     def shrink(self, case):
+        yield from P.thread_shrinks(case)
         for i, o in enumerate(case["ops"]):
             if o.get("fl") == "async":
                 yield dict(case, ops=case["ops"][:i] + [dict(o, fl="sync")] + case["ops"][i + 1 :])
